@@ -2107,7 +2107,7 @@ def witness_values(cuqi):
         gw = D.Gaussian(np.zeros(2), cov=Aw)
         a0 = float(np.ravel(gw.logpdf(np.array([1.0, 0.0])))[0])
         Aw *= 4.0
-        w["alias"] = [a0, float(np.ravel(gw.logpdf(np.array([1.0, 0.0])))[0]), float(np.asarray(gw.compute_cov())[0][0]) / 4.0]
+        w["alias"] = [a0, float(np.ravel(gw.logpdf(np.array([1.0, 0.0])))[0]), float(np.asarray(gw.compute_cov())[0][0])]
         old_thr = cuqi.config.MIN_DIM_SPARSE
         try:
             cuqi.config.MIN_DIM_SPARSE = 1
